@@ -25,6 +25,7 @@ ASSUMPTIONS = [
 KEY_A = bytes(range(32))
 KEY_B = bytes(255 - i for i in range(32))
 PLAIN = bytes((7 * i + 3) % 256 for i in range(64))
+MAX_FAILED = 1
 FILE_ALPHABET = ["absent", "A", "B", "bad0", "bad10", "bad31", "bad33", "bad64", "nodir"]
 
 
@@ -44,7 +45,7 @@ def content_of(sym, binding):
 class KFModel:
     def __init__(self, nobj):
         self.file = "absent"
-        self.objs = [[0, None] for _ in range(nobj)]
+        self.objs = [[0, None, 0] for _ in range(nobj)]     # depth, key, number of failed opens (capped, history only)
         self.store = []      # key symbols for which a ciphertext of PLAIN is held
         self.gen = 0
 
@@ -57,7 +58,7 @@ class KFModel:
         s = {"A", "B"}
         if self.file not in ("absent", "nodir") and not self.file.startswith("bad"):
             s.add(self.file)
-        for d, k in self.objs:
+        for d, k, _f in self.objs:
             if k:
                 s.add(k)
         return s
@@ -76,13 +77,13 @@ class KFModel:
                 ren[k] = "g%d" % (len(ren) + 1)
             return ren[k]
         f = r(self.file)
-        objs = tuple((d, r(k)) for d, k in self.objs)
+        objs = tuple((d, r(k), f) for d, k, f in self.objs)
         store = tuple(sorted(r(k) for k in self.store))
         return (f, objs, store)
 
     def enabled(self, maxdepth):
         ops = []
-        for i, (d, k) in enumerate(self.objs):
+        for i, (d, k, _f) in enumerate(self.objs):
             if d < maxdepth:
                 ops.append(["enter", i])
             if d > 0:
@@ -113,8 +114,10 @@ class KFModel:
                     self.file = g
                     o[1] = g
                 elif self.file == "nodir":
+                    o[2] = min(o[2] + 1, MAX_FAILED)
                     return ("raise", "cannot-create")
                 elif self.file.startswith("bad"):
+                    o[2] = min(o[2] + 1, MAX_FAILED)
                     return ("raise", "EncryptionError")
                 else:
                     o[1] = self.file
@@ -137,7 +140,7 @@ class KFModel:
                 return ("raise", "not-open")
             return ("ok", o[1] == op[2])
         if name == "new":
-            o[0], o[1] = 0, None
+            o[0], o[1], o[2] = 0, None, 0
             return ("ok", None)
         raise ValueError(op)
 
@@ -258,7 +261,7 @@ def xor_key(ct):
 
 # ---------------------------------------------------------------------------------------------
 def bounds(tier):
-    return {"objects": 3 if tier == "thorough" else 2, "max_nesting": 3 if tier == "thorough" else 2,
+    return {"objects": 3 if tier == "thorough" else 2, "max_nesting": 2, "failed_opens_remembered": MAX_FAILED,
             "file_alphabet": FILE_ALPHABET}
 
 
@@ -386,7 +389,7 @@ def check(ctx, nobj, hist, op):
             others = [KEY_A, KEY_B] + [v for k, v in w.binding.items() if k != mf]
             if want in others:
                 bad("generated-not-fresh", "generated key repeats an earlier key")
-    for i, (d, k) in enumerate(w.model.objs):
+    for i, (d, k, _f) in enumerate(w.model.objs):
         obj = w.objs[i]
         if d == 0:
             km = key_material(obj)
